@@ -677,3 +677,82 @@ zstubs! { #[kani::unwind(24)] fn c13_sender_data_key_ct0() { sender_data_case::<
 zstubs! { #[kani::unwind(24)] fn c13_sender_data_key_ct1() { sender_data_case::<1>(); } }
 zstubs! { #[kani::unwind(24)] fn c13_sender_data_key_ct2() { sender_data_case::<2>(); } }
 zstubs! { #[kani::unwind(24)] fn c13_sender_data_key_ct5() { sender_data_case::<5>(); } }
+
+
+// PSK chain with the label encoding cut away (the full-encoding harnesses above explore up to the
+// unwinding bound of garbage iterations and need ~1 h): the context (PSKLabel) and the label string
+// are each passed through raw as the KDF info by a stand-in for kdf_expand_with_label.
+fn psk_cut_case<const N: usize>(resumption_first: bool, check_label: bool) {
+    let mut log = Log::new(3 * N + 1);
+    let uf = Uf::new(&mut log);
+    let mut inputs: Vec<PskIn> = Vec::with_capacity(N);
+    let mut ids = [[0u8; 1]; N];
+    let mut nonces = [[0u8; 1]; N];
+    let mut values = [[0u8; 2]; N];
+    let usage: u8 = kani::any();
+    kani::assume(usage >= 1 && usage <= 3);
+    let r_epoch: u64 = kani::any();
+    let mut i = 0;
+    while i < N {
+        ids[i] = any_bytes::<1>();
+        nonces[i] = any_bytes::<1>();
+        values[i] = any_bytes::<2>();
+        let kind = if resumption_first && i == 0 {
+            PskIdKind::Resumption(usage, vec_of(ids[i]), r_epoch)
+        } else {
+            PskIdKind::External(vec_of(ids[i]))
+        };
+        inputs.push(PskIn { kind, nonce: vec_of(nonces[i]), value: vec_of(values[i]) });
+        i += 1;
+    }
+    match psk_calculate(inputs, &uf) {
+        Ok(s) => {
+            assert!(log.calls.len() == 3 * N);
+            let zero = rk::zeros(NH);
+            let mut running = rk::zeros(NH);
+            let mut i = 0;
+            while i < N {
+                let kind = if resumption_first && i == 0 {
+                    rk::PskKind::Resumption(usage, &ids[i], r_epoch)
+                } else {
+                    rk::PskKind::External(&ids[i])
+                };
+                assert!(is_extract(&log.calls[3 * i], &zero, &values[i]), "psk_extracted = Extract(0, psk_i)");
+                let c = &log.calls[3 * i + 1];
+                assert!(c.f == F::Expand && c.len == NH && rk::eq(&c.a, &log.calls[3 * i].out), "psk_input is expanded from psk_extracted, length Nh");
+                if check_label {
+                    assert!(rk::eq(&c.b, b"derived psk"), "label is derived psk");
+                } else {
+                    let label = rk::psk_label(&kind, &nonces[i], i as u16, N as u16);
+                    assert!(rk::eq(&c.b, &label), "context is PSKLabel(id_i, nonce_i, index i, count n)");
+                }
+                assert!(is_extract(&log.calls[3 * i + 2], &log.calls[3 * i + 1].out, &running), "psk_secret_i+1 = Extract(psk_input_i, psk_secret_i)");
+                running = log.calls[3 * i + 2].out.clone();
+                i += 1;
+            }
+            assert!(rk::eq(&s, &running), "result is the last chained secret");
+            forget(s);
+        }
+        Err(e) => { forget(e); assert!(false, "psk calculation failed"); }
+    }
+    forget(log);
+    kani::cover!(true);
+}
+
+macro_rules! psk_cut {
+    ($name:ident, $n:expr, $res:expr, $label:expr, $stub:path, $unwind:expr) => {
+        #[kani::proof]
+        #[kani::unwind($unwind)]
+        #[kani::stub(mls_rs::group::key_schedule::kdf_expand_with_label, $stub)]
+        #[kani::stub(zeroize::optimization_barrier, crate::stubs::optimization_barrier_stub)]
+        #[kani::stub(zeroize::volatile_set, crate::stubs::volatile_set_stub)]
+        fn $name() { psk_cut_case::<$n>($res, $label); }
+    };
+}
+psk_cut!(c18_psk_cut_ctx_1_external, 1, false, false, mls_rs::verif::derive::kdf_expand_with_label_ctx_only, 14);
+psk_cut!(c18_psk_cut_ctx_1_resumption, 1, true, false, mls_rs::verif::derive::kdf_expand_with_label_ctx_only, 20);
+psk_cut!(c18_psk_cut_ctx_2_external, 2, false, false, mls_rs::verif::derive::kdf_expand_with_label_ctx_only, 14);
+psk_cut!(c18_psk_cut_ctx_2_mixed, 2, true, false, mls_rs::verif::derive::kdf_expand_with_label_ctx_only, 20);
+psk_cut!(c18_psk_cut_label_1, 1, false, true, mls_rs::verif::derive::kdf_expand_with_label_label_only, 14);
+psk_cut!(c18_psk_cut_label_2, 2, true, true, mls_rs::verif::derive::kdf_expand_with_label_label_only, 14);
+
